@@ -30,7 +30,15 @@ var hostilePlan = []Plan{{"byz", 1200, 50000}, {"async-benign", 900, 40000}, {"m
 
 func C03(r *ev.Run) {
 	r.SetRule(ruleRuns + "the run contains a commit or pre-commit of an honest node followed by further traffic to it, or a view entry")
-	protoCheck(r, hostilePlan, func() (vnet.Monitor, func() ([]mon.V, map[string]int64)) {
+	if Only < 0 {
+		// directed scenario of the recorded finding (deterministic KNOWN-FINDING line)
+		m := &mon.Lock{}
+		b := DirectedCommitThenWatch(m)
+		Report(r, b, m.Viols)
+		Account(r, b, m.Cnt)
+		SampleRun(r, b, "directed scenario "+b.Spec.Profile)
+	}
+	protoCheck(r, append(append([]Plan{}, hostilePlan...), Plan{"byz-flips", 300, 12000}), func() (vnet.Monitor, func() ([]mon.V, map[string]int64)) {
 		m := &mon.Lock{}
 		return m, func() ([]mon.V, map[string]int64) { return m.Viols, m.Cnt }
 	}, func(b *Built, cnt map[string]int64) bool {
@@ -74,7 +82,15 @@ func C07(r *ev.Run) {
 
 func C10(r *ev.Run) {
 	r.SetRule(ruleRuns + "at least one API return of an undecided validator was checked")
-	protoCheck(r, hostilePlan, func() (vnet.Monitor, func() ([]mon.V, map[string]int64)) {
+	if Only < 0 {
+		// directed scenario of the recorded finding (deterministic KNOWN-FINDING line)
+		m := mon.NewWake()
+		b := DirectedWatchFlagOff(m)
+		Report(r, b, m.Viols)
+		Account(r, b, m.Cnt)
+		SampleRun(r, b, "directed scenario "+b.Spec.Profile)
+	}
+	protoCheck(r, append(append([]Plan{}, hostilePlan...), Plan{"watch", 300, 10000}), func() (vnet.Monitor, func() ([]mon.V, map[string]int64)) {
 		m := mon.NewWake()
 		return m, func() ([]mon.V, map[string]int64) { return m.Viols, m.Cnt }
 	}, func(b *Built, cnt map[string]int64) bool {
